@@ -298,4 +298,152 @@ theorem consumes_all (maxD : Nat) : ∀ fuel : Nat,
 theorem item_consumes {maxD fuel d : Nat} {s : Bytes} {v : Item} {r : Bytes} (h : item maxD fuel d s = .ok v r) : r.length < s.length :=
   (consumes_all maxD fuel).1 d s v r h
 
+/-! ### 2. the fuel never runs out -/
+
+section nofuel
+variable (maxD fuel : Nat)
+
+theorem item_nofuel_step
+    (hL : ∀ d n s, 2 * s.length + 2 ≤ fuel → items maxD fuel d n s ≠ .fail .fuel)
+    (hLI : ∀ d s, 2 * s.length + 2 ≤ fuel → itemsIndef maxD fuel d s ≠ .fail .fuel)
+    (hM : ∀ d n s, 2 * s.length + 2 ≤ fuel → members maxD fuel d n s ≠ .fail .fuel)
+    (hMI : ∀ d s, 2 * s.length + 2 ≤ fuel → membersIndef maxD fuel d s ≠ .fail .fuel) :
+    ∀ d s, 2 * s.length + 1 ≤ fuel + 1 → item maxD (fuel + 1) d s ≠ .fail .fuel := by
+  intro d s hf
+  cases s with
+  | nil => simp [item]
+  | cons ib s =>
+    simp only [List.length_cons] at hf
+    rcases (by omega : ib / 32 = 0 ∨ ib / 32 = 1 ∨ ib / 32 = 2 ∨ ib / 32 = 3 ∨ ib / 32 = 4 ∨ ib / 32 = 5 ∨ ib / 32 = 6 ∨ ib / 32 = 7 ∨ 8 ≤ ib / 32)
+      with hm | hm | hm | hm | hm | hm | hm | hm | hm
+    all_goals first
+      | (have e : ¬ ib / 32 = 0 ∧ ¬ ib / 32 = 1 ∧ ¬ ib / 32 = 2 ∧ ¬ ib / 32 = 3 ∧ ¬ ib / 32 = 4 ∧ ¬ ib / 32 = 5 ∧ ¬ ib / 32 = 6 ∧ ¬ ib / 32 = 7 := by omega
+         simp [item, e]; done)
+      | simp only [item, readSize, hm, if_true, if_false, Nat.reduceEqDiff]
+    all_goals (repeat' split) <;> first
+      | (intro h; injection h with h; subst h
+         first
+           | exact readUint64_ne_fuel _ ‹readUint64 _ = Res.fail _›
+           | exact readInt64_ne_fuel _ ‹readInt64 _ = Res.fail _›
+           | exact readDouble_ne_fuel _ ‹readDouble _ = Res.fail _›
+           | (have h' := ‹readString _ _ _ _ = Res.fail _›; exact readString_ne_fuel (by omega) h')
+           | (have h' := ‹itemsIndef _ _ _ _ = Res.fail _›; exact hLI _ _ (by omega) h')
+           | (have h' := ‹membersIndef _ _ _ _ = Res.fail _›; exact hMI _ _ (by omega) h')
+           | (have := readUint64_len ‹readUint64 _ = Res.ok _ _›
+              have h' := ‹items _ _ _ _ _ = Res.fail _›
+              exact hL _ _ _ (by simp only [List.length_cons] at *; omega) h')
+           | (have := readUint64_len ‹readUint64 _ = Res.ok _ _›
+              have h' := ‹members _ _ _ _ _ = Res.fail _›
+              exact hM _ _ _ (by simp only [List.length_cons] at *; omega) h'))
+      | (simp; done)
+
+variable (hI : ∀ d s, 2 * s.length + 1 ≤ fuel → item maxD fuel d s ≠ .fail .fuel)
+
+include hI in
+theorem items_nofuel_step (hL : ∀ d n s, 2 * s.length + 2 ≤ fuel → items maxD fuel d n s ≠ .fail .fuel) :
+    ∀ d n s, 2 * s.length + 2 ≤ fuel + 1 → items maxD (fuel + 1) d n s ≠ .fail .fuel := by
+  intro d n s hf
+  cases n with
+  | zero => simp [items]
+  | succ n =>
+    simp only [items]
+    cases h1 : item maxD fuel d s with
+    | fail f => simp only []; intro h; injection h with h; subst h; exact hI d s (by omega) h1
+    | ok x s1 =>
+      simp only []
+      have := item_consumes h1
+      cases h2 : items maxD fuel d n s1 with
+      | fail f => simp only []; intro h; injection h with h; subst h; exact hL d n s1 (by omega) h2
+      | ok xs rest => simp
+
+include hI in
+theorem itemsIndef_nofuel_step (hL : ∀ d s, 2 * s.length + 2 ≤ fuel → itemsIndef maxD fuel d s ≠ .fail .fuel) :
+    ∀ d s, 2 * s.length + 2 ≤ fuel + 1 → itemsIndef maxD (fuel + 1) d s ≠ .fail .fuel := by
+  intro d s hf
+  cases s with
+  | nil => simp [itemsIndef]
+  | cons ib s =>
+    simp only [itemsIndef]
+    by_cases hff : ib = 255
+    · simp [hff]
+    · simp only [hff, if_false]
+      cases h1 : item maxD fuel d (ib :: s) with
+      | fail f => simp only []; intro h; injection h with h; subst h; exact hI d _ (by omega) h1
+      | ok x s1 =>
+        simp only []
+        have := item_consumes h1
+        cases h2 : itemsIndef maxD fuel d s1 with
+        | fail f => simp only []; intro h; injection h with h; subst h; exact hL d s1 (by omega) h2
+        | ok xs rest => simp
+
+include hI in
+theorem members_nofuel_step (hL : ∀ d n s, 2 * s.length + 2 ≤ fuel → members maxD fuel d n s ≠ .fail .fuel) :
+    ∀ d n s, 2 * s.length + 2 ≤ fuel + 1 → members maxD (fuel + 1) d n s ≠ .fail .fuel := by
+  intro d n s hf
+  cases n with
+  | zero => simp [members]
+  | succ n =>
+    simp only [members]
+    cases h1 : item maxD fuel d s with
+    | fail f => simp only []; intro h; injection h with h; subst h; exact hI d s (by omega) h1
+    | ok k s1 =>
+      simp only []
+      have := item_consumes h1
+      cases h2 : item maxD fuel d s1 with
+      | fail f => simp only []; intro h; injection h with h; subst h; exact hI d s1 (by omega) h2
+      | ok x s2 =>
+        simp only []
+        have := item_consumes h2
+        cases h3 : members maxD fuel d n s2 with
+        | fail f => simp only []; intro h; injection h with h; subst h; exact hL d n s2 (by omega) h3
+        | ok xs rest => simp
+
+include hI in
+theorem membersIndef_nofuel_step (hL : ∀ d s, 2 * s.length + 2 ≤ fuel → membersIndef maxD fuel d s ≠ .fail .fuel) :
+    ∀ d s, 2 * s.length + 2 ≤ fuel + 1 → membersIndef maxD (fuel + 1) d s ≠ .fail .fuel := by
+  intro d s hf
+  cases s with
+  | nil => simp [membersIndef]
+  | cons ib s =>
+    simp only [membersIndef]
+    by_cases hff : ib = 255
+    · simp [hff]
+    · simp only [hff, if_false]
+      cases h1 : item maxD fuel d (ib :: s) with
+      | fail f => simp only []; intro h; injection h with h; subst h; exact hI d _ (by omega) h1
+      | ok k s1 =>
+        simp only []
+        have := item_consumes h1
+        cases h2 : item maxD fuel d s1 with
+        | fail f => simp only []; intro h; injection h with h; subst h; exact hI d s1 (by omega) h2
+        | ok x s2 =>
+          simp only []
+          have := item_consumes h2
+          cases h3 : membersIndef maxD fuel d s2 with
+          | fail f => simp only []; intro h; injection h with h; subst h; exact hL d s2 (by omega) h3
+          | ok xs rest => simp
+
+end nofuel
+
+/-- with fuel ≥ 2·|s|+1 (`item`) resp. 2·|s|+2 (the list readers) the answer is never `Fail.fuel` -/
+theorem nofuel_all (maxD : Nat) : ∀ fuel : Nat,
+    (∀ d s, 2 * s.length + 1 ≤ fuel → item maxD fuel d s ≠ .fail .fuel) ∧
+    (∀ d n s, 2 * s.length + 2 ≤ fuel → items maxD fuel d n s ≠ .fail .fuel) ∧
+    (∀ d s, 2 * s.length + 2 ≤ fuel → itemsIndef maxD fuel d s ≠ .fail .fuel) ∧
+    (∀ d n s, 2 * s.length + 2 ≤ fuel → members maxD fuel d n s ≠ .fail .fuel) ∧
+    (∀ d s, 2 * s.length + 2 ≤ fuel → membersIndef maxD fuel d s ≠ .fail .fuel)
+  | 0 => by
+    refine ⟨?_, ?_, ?_, ?_, ?_⟩ <;> intros <;> omega
+  | fuel + 1 => by
+    obtain ⟨hI, hL, hLI, hM, hMI⟩ := nofuel_all maxD fuel
+    exact ⟨item_nofuel_step maxD fuel hL hLI hM hMI, items_nofuel_step maxD fuel hI hL, itemsIndef_nofuel_step maxD fuel hI hLI,
+      members_nofuel_step maxD fuel hI hM, membersIndef_nofuel_step maxD fuel hI hMI⟩
+
+theorem item_ne_fuel {maxD fuel d : Nat} {s : Bytes} (hf : 2 * s.length + 1 ≤ fuel) : item maxD fuel d s ≠ .fail .fuel :=
+  (nofuel_all maxD fuel).1 d s hf
+
+/-- `decode` supplies 2·|s|+2: it never runs out of fuel -/
+theorem decode_ne_fuel (maxD : Nat) (s : Bytes) : decode maxD s ≠ .fail .fuel :=
+  item_ne_fuel (by omega)
+
 end JV.Model.CborParser
